@@ -216,7 +216,7 @@ RD = dict(READERS)
 ONE = ['str', 'sssr', 'atoms_order', 'connected_components', 'bonds_count', 'brutto', 'chiral', 'stereogenic_tetrahedrons',
        'atoms_rings_sizes', 'hash', 'smiles_atoms_order', 'molecular_mass']
 PATTERNS = ['ALL', 'REV', 'NONE'] + ['ONE:' + k for k in ONE]
-PATTERNS_QUICK = ['ALL', 'NONE'] + ['ONE:' + k for k in ONE[:9]]
+PATTERNS_QUICK = ['ALL', 'NONE'] + ['ONE:' + k for k in ONE[:9] + ['smiles_atoms_order']]
 
 
 def read(m, names):
@@ -908,12 +908,12 @@ def stage_medium2(pmap, tier, seed):
 def plan(tier, seed):
     if tier == 'thorough':
         return [Stage('BFS default reads depth 4', stage_default, None, 'all histories <=4 events, <=4 atoms, <=1 decorated atom, all caches read after every event'),
-                Stage('BFS <=1 read deviation depth 3', stage_dev1, None, 'all histories <=3 events, 11 seeds, with <=1 non-default read pattern (none/exactly-one-of-9)'),
+                Stage('BFS <=1 read deviation depth 3', stage_dev1, None, 'all histories <=3 events, 11 seeds, with <=1 non-default read pattern (none/exactly-one-of-12)'),
                 Stage('BFS <=2 read deviations depth 3', stage_dev2, None, 'all histories <=3 events on 5 seeds with <=2 non-default read patterns (none / one of str, sssr, atoms_order, components)'),
                 Stage('medium seeds: every event, <=1 read deviation', stage_medium1, None, 'every enabled event at every position of 15 molecules of 5-10 atoms (rings, stereo, zwitterion, metal) x every read pattern'),
                 Stage('medium seeds: every pair of events', stage_medium2, None, 'all histories of 2 events on the 15 medium seeds, all caches read after every event')]
     return [Stage('BFS default reads depth 3', stage_default, None, 'all histories <=3 events, <=4 atoms, <=1 decorated atom, all caches read after every event'),
-            Stage('BFS <=1 read deviation depth 2', stage_dev1, None, 'all histories <=2 events, <=4 atoms, with <=1 non-default read pattern (none/exactly-one-of-9)'),
+            Stage('BFS <=1 read deviation depth 2', stage_dev1, None, 'all histories <=2 events, <=4 atoms, with <=1 non-default read pattern (none/exactly-one-of-10)'),
             Stage('medium seeds: every event, <=1 read deviation', stage_medium1, None, 'every enabled event at every position of %d molecules of 5-8 atoms (Kekule ring, stereocentre, diene, bicycle, zwitterion, ring stereocentre, two rings, allene) x read patterns all / none / str only; labels of untouched, still stereogenic elements persist (I6)' % len(SEEDS_MEDIUM_QUICK))]
 
 
